@@ -437,6 +437,44 @@ def check_nll_domain(ctx):
         ctx.check(has_t, "C17-D3n nll-domain", f.key + ":domain", "the sum ranges over the target's outcomes (or the union of both supports)", f"the log-likelihood is summed over `{short(it)}`, which does not include the target distribution's outcomes: target outcomes the model gives no entry contribute nothing instead of target(x)*log(eps), so the value can fall below the target's entropy", f"{f.module.relpath}:{getattr(it, 'lineno', f.node.lineno)}")
 
 
+def check_constructor_owns_its_dictionary(ctx):
+    """The constructor normalises `preprocess_distibution_dict(input)` in place and keeps it: that is only harmless because the
+    preprocessing step always builds a new dictionary. An exit that hands back the caller's dictionary (a "nothing to convert"
+    shortcut) makes the constructor rescale the caller's weights and share the storage with the caller."""
+    from ..common import exit_exprs
+
+    f = ctx.repo.func(f"{MOD}:preprocess_distibution_dict")
+    ctx.analysed(f)
+    p0 = positional_params(f.node)[0]
+    same = [e for e in exit_exprs(f.node) if isinstance(e, ast.Name) and e.id == p0]
+    ctx.check(not same, R1, f.key + ":fresh-dictionary", "every exit returns a dictionary built here", f"preprocess_distibution_dict returns its argument `{p0}` itself on some path: the constructor then normalises the *caller's* dictionary in place and keeps a reference to it, so the caller's weights are rescaled and later edits of that dictionary change the distribution object (which then no longer sums to 1)", f"{f.module.relpath}:{same[0].lineno}" if same else f)
+
+
+def check_writers_store_every_outcome(ctx):
+    """Both writers store the distribution's dictionary as it is: an outcome listed with probability 0 is a key of the distribution
+    and has to come back; a writer that filters (or otherwise rebuilds) the dictionary disagrees with its sibling and with the
+    reader."""
+    repo = ctx.repo
+    n = 0
+    for name in ("save_measurement_outcome_distribution", "save_measurement_outcome_distributions"):
+        f = repo.func(f"{MOD}:{name}")
+        ctx.analysed(f)
+        d = Defs(f.node)
+        calls = [c for c in body_walk(f.node) if isinstance(c, ast.Call) and dotted(c.func) == "change_tuple_dict_keys_to_comma_separated_integers" and c.args]
+        if not calls:
+            ctx.undecided(R5, f.key + ":every-outcome", "cannot find the key conversion call", f)
+            continue
+        for c in calls:
+            n += 1
+            a = c.args[0]
+            if isinstance(a, ast.Name):
+                ds = [x for x in d.defs.get(a.id, []) if isinstance(x, ast.AST)]
+                a = ds[0] if len(ds) == 1 else a
+            ok = isinstance(a, ast.Attribute) and a.attr == "distribution_dict"
+            filtered = isinstance(a, (ast.DictComp, ast.ListComp, ast.GeneratorExp)) and any(g.ifs for g in a.generators)
+            ctx.check(ok, R5, f.key + ":every-outcome", "the distribution's own dictionary is what is written", f"{name} writes {short(a, 90)} instead of the distribution's dictionary" + (": outcomes are filtered out before writing, so a distribution that lists an outcome with probability 0 comes back without that key" if filtered else ""), f"{f.module.relpath}:{c.lineno}")
+
+
 def check_key_notation(ctx):
     """The saved key of an outcome is text; writer and reader must agree on *how the notation of one key is chosen*.
     If the writer may choose the notation key by key (separator depending on the key), the reader has to recognise it key by
@@ -515,6 +553,8 @@ def run(ctx):
     check_pair(ctx, R5, "outcome-distribution", f"{MOD}:save_measurement_outcome_distribution", f"{MOD}:load_measurement_outcome_distribution", None, allow_unwritten=legacy)
     check_pair(ctx, R5, "outcome-distributions", f"{MOD}:save_measurement_outcome_distributions", f"{MOD}:load_measurement_outcome_distributions", None, allow_unwritten=legacy)
     check_key_notation(ctx)
+    check_constructor_owns_its_dictionary(ctx)
+    check_writers_store_every_outcome(ctx)
     check_nll_domain(ctx)
     ctx.floor("C17-D3n", 1)
     ctx.floor("C17-D1", 12)
